@@ -202,7 +202,9 @@ Definition shape_tree (w h : Qc) : list (string * ytree) :=
 
 Inductive in_result :=
   | IRes (r : result)       (* the constructor returned or an assertion failed *)
-  | IRaise.                 (* another exception escaped *)
+  | IRaise                  (* another exception escaped *)
+  | INonFinite.             (* '<W>x<H>' with an infinite side: the constructor's float arithmetic (inf - inf,
+                               inf / inf) is outside the model; it ends in an assertion or a ZeroDivisionError *)
 
 Section World.
   Variable file_of : string -> option string.   (* open(name).read(); None = OSError *)
@@ -237,14 +239,13 @@ Section World.
     | InStream txt => from_text txt
     end.
 
-  (* Die(stream, netlist) for a given cover of the free cells; fx = netlist.fixed_rectangles().
-     An infinite side makes the area sum inf - inf = nan, which fails the last self-check. *)
+  (* Die(stream, netlist) for a given cover of the free cells; fx = netlist.fixed_rectangles() *)
   Definition die_in_with_cover (eps aeps deps tin : Qc) (i : die_input) (fx : list Rect) (gs : list irect)
     : in_result :=
     match resolve i with
     | RTree t => IRes (die_with_cover eps aeps deps tin (mkDesc t fx) gs)
     | RAssert => IRes (Reject RParse)
-    | RInfinite => IRes (Reject RArea)
+    | RInfinite => INonFinite
     | RRaise => IRaise
     end.
 
@@ -257,7 +258,7 @@ Section World.
     match resolve i with
     | RTree t => IRes (die_model_cells eps aeps deps tin (mkDesc t fx))
     | RAssert => IRes (Reject RParse)
-    | RInfinite => IRes (Reject RArea)
+    | RInfinite => INonFinite
     | RRaise => IRaise
     end.
 End World.
